@@ -25,7 +25,7 @@ SKELETON = (r'^(?P<access_mode>%A)\s(?P<sectors>\d+)\s(?P<type>%T)(\s(?P<filenam
 def _parse(repo, rel):
     path = os.path.join(repo, rel)
     try:
-        return ast.parse(open(path).read(), path), path
+        return translate.inline_literal_seqs(ast.parse(open(path).read(), path)), path
     except (OSError, SyntaxError) as e:
         raise TranslateError(f"{path}: {e}")
 
